@@ -252,6 +252,8 @@ func (ex *Exec) callSSA(caller *frame, pos token.Pos, fn *ssa.Function, args []v
 		ex.Funcs[fn.String()]++
 	}
 	fr := &frame{ex: ex, caller: caller, fn: fn, env: make(map[ssa.Value]value), visits: map[*ssa.BasicBlock]int{}, callPos: pos}
+	ex.curFrame = fr
+	defer func() { ex.curFrame = caller }()
 	fr.block = fn.Blocks[0]
 	fr.locals = make([]value, len(fn.Locals))
 	for i, l := range fn.Locals {
